@@ -1199,6 +1199,8 @@ class Interp:
             fi = v.module.resolve_method(v.name, attr) if v.module else None
             if fi is not None:
                 return BoundMethod(v, attr) if fi.is_classmethod else FuncV(fi)
+            if attr == "__name__":
+                return v.name
             if attr == "__new__" and v.module is not None:
                 # Cls.__new__(Cls): an object of concrete shape without any attribute yet
                 def _new(it, cls, *a, **k):
